@@ -61,7 +61,15 @@ CLAIMED = {
     'C10': {
         'text': ('Lean 4 on the contraction model (networkx.contracted_nodes semantics): exactly one atom fewer per '
                  'contraction, every other atom unchanged, the removed atom gone, memberships/mappings concatenated on '
-                 'the kept atom, bonds not involving the removed atom kept. Tied to the code by exact differential '
+                 'the kept atom, bonds not involving the removed atom kept. For EVERY sequence of merges (the whole loop of '
+                 'squash_atoms, atoms shared any number of times): following the chain of previous merges ends within the '
+                 'loop at a live atom (resolve_alive, well-founded record WF), the result has one atom fewer per merge, at '
+                 'most one per shared pair, exactly one per pair when the pairs are separate, distinct keys, and every atom '
+                 'off the "!" bonds is untouched (C10_count, C10_at_most, C10_separate_pairs, C10_untouched); the molecule '
+                 'phase A builds meets these hypotheses for every base graph and template set with distinct keys and closed '
+                 'bonds (phaseA_wellformed), which gives the count in the resolver\'s terms (C10_resolver_count: all '
+                 'fragment copies together minus the merges); the template hypothesis is evaluated by the model on every '
+                 'template set the real reader produces (fragsWFb_iff). Tied to the code by exact differential '
                  'execution on generated overlapping descriptions (incl. atoms shared by 3-4 fragments).'),
         'note': RESOLVE_NOTE + 'The full quotient statement and the equivalence with disjoint descriptions are validated by the oracle (partial).',
         'design': '§7 C10',
